@@ -4,22 +4,29 @@
    capacity are predicted exactly). *)
 EXTENDS BankMap, Json, IOUtils
 T == ndJsonDeserialize(IOEnv.TRACE)
-MaxFails == 12
+MaxPerLabel == 4            \* failures kept per (property, label) and chunk: a label that repeats on every step never hides another one
 VARIABLES l, A, C, capb, fails, cnt, drift, exec
 vars == <<l, A, C, capb, fails, cnt, drift, exec>>
 Cnt0 == [steps |-> 0, execs |-> 0, creates |-> 0, rtok |-> 0, rtfull |-> 0, removes |-> 0, loads |-> 0, collisions |-> 0, badidx |-> 0,
-         reuse |-> 0, grown |-> 0, readbacks |-> 0, refined |-> 0, drifted |-> 0, maxsize |-> 0]
+         reuse |-> 0, grown |-> 0, readbacks |-> 0,
+         inswrites |-> 0, blankdata |-> 0, blankover |-> 0, flagbits |-> 0, oversound |-> 0, fileins |-> 0, fileblankdata |-> 0, refined |-> 0, drifted |-> 0, maxsize |-> 0]
 Init == l = 1 /\ A = <<>> /\ C = C0 /\ capb = 0 /\ fails = <<>> /\ cnt = Cnt0 /\ drift = <<>> /\ exec = 0
 
 Tag(S, ev) == { [p |-> "C16", w |-> x, l |-> l, x |-> exec, e |-> ev.o, d |-> ""] : x \in S }
-AddFails(S) == IF Len(fails) >= MaxFails \/ S = {} THEN fails ELSE fails \o SetToSeq(S)
+NKept(fs, p, w) == Cardinality({ i \in DOMAIN fs : fs[i].p = p /\ fs[i].w = w })
+AddFailsTo(fs, S) == fs \o SetToSeq({ f \in S : NKept(fs, f.p, f.w) < MaxPerLabel })
+AddFails(S) == IF S = {} THEN fails ELSE AddFailsTo(fails, S)
 Lbl(c, s) == IF c THEN {} ELSE {s}
 
 \* expected result on the abstract map; cap = capacity observed before the call
+\* a bank file names instrument 0 of each of its banks (field "ins", absent = all 128 blank); the bank then holds what the
+\* version-2 file format keeps of it (BankMap!WopnV2Ins)
+HasIns(k) == "ins" \in DOMAIN k
+FileVal(k) == IF HasIns(k) THEN <<<<0, WopnV2Ins(k.ins)>>>> ELSE BlankVal
 RECURSIVE LoadKeys(_, _)
 LoadKeys(A0, ks) == IF ks = <<>> THEN A0
-                    ELSE LoadKeys(IF AHas(A0, ks[1].key) THEN [A0 EXCEPT ![AIdx(A0, ks[1].key)].val = ValSet(@, 0, ks[1].tok)]
-                                  ELSE Append(A0, [key |-> ks[1].key, val |-> <<<<0, ks[1].tok>>>>]), SubSeq(ks, 2, Len(ks)))
+                    ELSE LoadKeys(IF AHas(A0, ks[1].key) THEN [A0 EXCEPT ![AIdx(A0, ks[1].key)].val = FileVal(ks[1])]
+                                  ELSE Append(A0, [key |-> ks[1].key, val |-> FileVal(ks[1])]), SubSeq(ks, 2, Len(ks)))
 Expect(A0, cap, ev) ==
   CASE ev.o = "get" /\ ev.mode = "find"     -> [a |-> A0, r |-> IF AHas(A0, ev.key) THEN 0 ELSE -1]
     [] ev.o = "get" /\ ev.mode = "create"   -> [a |-> IF AHas(A0, ev.key) THEN A0 ELSE Append(A0, [key |-> ev.key, val |-> BlankVal]), r |-> 0]
@@ -29,7 +36,7 @@ Expect(A0, cap, ev) ==
     [] ev.o = "remove" -> IF AHas(A0, ev.key) THEN [a |-> RemoveAt(A0, AIdx(A0, ev.key)), r |-> 0] ELSE [a |-> A0, r |-> -1]
     \* instrument API: only the indices 0..127 exist; any other index is refused and NO bank changes (the look-ups, the
     \* iteration and the read-backs of every bank after the call are judged against the unchanged map)
-    [] ev.o = "setins" -> IF AHas(A0, ev.key) /\ InsIdxOk(ev.idx) THEN [a |-> [A0 EXCEPT ![AIdx(A0, ev.key)].val = ValSet(@, ev.idx, ev.tok)], r |-> 0]
+    [] ev.o = "setins" -> IF AHas(A0, ev.key) /\ InsIdxOk(ev.idx) THEN [a |-> [A0 EXCEPT ![AIdx(A0, ev.key)].val = ValSet(@, ev.idx, ev.ins)], r |-> 0]
                           ELSE [a |-> A0, r |-> -1]
     [] ev.o = "getins" -> [a |-> A0, r |-> IF AHas(A0, ev.key) /\ InsIdxOk(ev.idx) THEN 0 ELSE -1]
     [] ev.o = "load"   -> IF ev.bad = 1 THEN [a |-> A0, r |-> -1] ELSE [a |-> LoadKeys(<<>>, ev.keys), r |-> 0]
@@ -40,10 +47,25 @@ Expect(A0, cap, ev) ==
 RECURSIVE ModelLoad(_, _)
 ModelLoad(C1, ks) == IF ks = <<>> THEN C1
                      ELSE LET ir == Insert(C1, ks[1].key, TRUE) IN
-                          ModelLoad([ir.c EXCEPT !.slots[ir.s].val = ValSet(@, 0, ks[1].tok)], SubSeq(ks, 2, Len(ks)))
+                          ModelLoad([ir.c EXCEPT !.slots[ir.s].val = FileVal(ks[1])], SubSeq(ks, 2, Len(ks)))
 ModelStep(C1, ev) ==
   IF ev.o = "load" THEN (IF ev.bad = 1 THEN C1 ELSE ModelLoad(Clear(C1), ev.keys))
   ELSE ApiStep(C1, ev).c
+
+\* read-back monitor: EVERY field of what opn2_getInstrument returns (record <<bank key, index, 36 fields, version>>) equals
+\* the instrument last written to that index of that bank - by opn2_setInstrument, by a bank file, or the blank instrument of
+\* a new bank - whatever flags it carries and whatever the slot held before.  A1 = the abstract map after the call.
+RbOK(A1, q) == AHas(A1, q[1]) /\ q[3] = ValGet(A1[AIdx(A1, q[1])].val, q[2]) /\ q[4] = 0
+RbBad(A1, rb) == { i \in DOMAIN rb : ~RbOK(A1, rb[i]) }
+\* which fields of the first wrong read-back differ (diagnostic text of the failure)
+RbDetail(A1, q) ==
+  IF ~AHas(A1, q[1]) THEN "bank " \o ToString(q[1]) \o " not in the map"
+  ELSE LET want == ValGet(A1[AIdx(A1, q[1])].val, q[2]) IN
+       "bank " \o ToString(q[1]) \o " ins " \o ToString(q[2]) \o (IF want[FFlags] = q[3][FFlags] /\ InsHasFlag(want, FlagBlank) THEN " (blank flag set)" ELSE "") \o " differs in " \o
+       (IF Len(q[3]) # InsLen THEN "length" ELSE ToString({ InsFields[i] : i \in { j \in 1..InsLen : q[3][j] # want[j] } })) \o
+       (IF q[4] # 0 THEN " version" ELSE "")
+\* previous content of the slot a write addresses (A0 = map before the call)
+PrevIns(A0, ev) == ValGet(A0[AIdx(A0, ev.key)].val, ev.idx)
 
 StepInit(ev) ==
   /\ A' = <<>> /\ C' = C0 /\ capb' = 0 /\ exec' = exec + 1 /\ fails' = fails /\ drift' = drift
@@ -57,14 +79,17 @@ StepOp(ev) ==
            \cup Lbl(ev.o # "reserve" \/ (ev.r >= ev.n /\ ev.r = ev.cap), "reserve")
            \cup Lbl(\A i \in DOMAIN ev.find : (ev.find[i][2] = 1) <=> AHas(A1, ev.find[i][1]), "lookup")
            \cup Lbl(itset = AKeys(A1) /\ Len(ev.it) = Cardinality(itset), "iteration")
-           \cup Lbl(\A i \in DOMAIN ev.rb : LET q == ev.rb[i] IN
-                      AHas(A1, q[1]) /\ q[3] = ValGet(A1[AIdx(A1, q[1])].val, q[2]) /\ q[4] = 1 /\ ((q[5] = 1) <=> (q[3] = 0)), "readback")
            \cup Lbl((ev.o = "get" /\ ev.mode = "creatert") => ev.na = 0 /\ ev.cap = capb, "rt-alloc")
            \cup Lbl(ev.cap >= Len(A1), "capacity")
+      rbbad == RbBad(A1, ev.rb)
+      frb == IF rbbad = {} THEN {}
+             ELSE LET i == CHOOSE i \in rbbad : \A j \in rbbad : i <= j IN
+                  { [p |-> "C16", w |-> "readback", l |-> l, x |-> exec, e |-> ev.o, d |-> RbDetail(A1, ev.rb[i])] }
+      wr == ev.o = "setins" /\ ex.r = 0
       C1 == ModelStep(C, ev)
       d == Lbl(IterKeys(C1) = ev.it, "order") \cup Lbl(C1.cap = ev.cap, "cap")
   IN /\ A' = A1 /\ C' = C1 /\ capb' = ev.cap /\ exec' = exec
-     /\ fails' = AddFails(Tag(f, ev))
+     /\ fails' = AddFails(Tag(f, ev) \cup frb)
      /\ drift' = IF d # {} /\ Len(drift) < 6 THEN Append(drift, [l |-> l, x |-> exec, e |-> ev.o, d |-> ToString(d)]) ELSE drift
      /\ cnt' = [cnt EXCEPT !.steps = @ + 1,
            !.creates = @ + (IF ev.o = "get" /\ ev.mode # "find" /\ ~AHas(A, ev.key) /\ AHas(A1, ev.key) THEN 1 ELSE 0),
@@ -77,6 +102,14 @@ StepOp(ev) ==
            !.reuse = @ + (IF ev.o = "get" /\ ev.mode # "find" /\ ~AHas(A, ev.key) /\ C.free # 0 /\ C.slots[C.free].key = -1 /\ C.nalloc > 0 /\ C.size < Len(C.slots) /\ C.cap = capb THEN 1 ELSE 0),
            !.grown = @ + (IF ev.cap > capb THEN 1 ELSE 0),
            !.readbacks = @ + Len(ev.rb),
+           \* non-vacuity of the flags x data x previous-content dimension
+           !.inswrites = @ + (IF wr THEN 1 ELSE 0),
+           !.blankdata = @ + (IF wr /\ InsHasFlag(ev.ins, FlagBlank) /\ ~InsDataZero(ev.ins) THEN 1 ELSE 0),
+           !.blankover = @ + (IF wr /\ InsHasFlag(ev.ins, FlagBlank) /\ ~InsDataZero(ev.ins) /\ ~InsDataZero(PrevIns(A, ev)) /\ PrevIns(A, ev) # ev.ins THEN 1 ELSE 0),
+           !.oversound = @ + (IF wr /\ ~InsHasFlag(PrevIns(A, ev), FlagBlank) /\ PrevIns(A, ev) # ev.ins THEN 1 ELSE 0),
+           !.flagbits = @ + (IF wr /\ ev.ins[FFlags] \notin {0, FlagBlank} THEN 1 ELSE 0),
+           !.fileins = @ + (IF ev.o = "load" /\ ev.bad = 0 THEN Cardinality({ i \in DOMAIN ev.keys : HasIns(ev.keys[i]) }) ELSE 0),
+           !.fileblankdata = @ + (IF ev.o = "load" /\ ev.bad = 0 THEN Cardinality({ i \in DOMAIN ev.keys : HasIns(ev.keys[i]) /\ WopnV2Ins(ev.keys[i].ins)[FFlags] = FlagBlank /\ ~InsDataZero(ev.keys[i].ins) }) ELSE 0),
            !.refined = @ + 1, !.drifted = @ + (IF d # {} THEN 1 ELSE 0),
            !.maxsize = IF Len(A1) > @ THEN Len(A1) ELSE @]
 Next ==
